@@ -30,8 +30,11 @@ Example tie_C05_raises :
    "not equal_omega";
    "cache_diagonalization is False and additional_noise_Hamiltonian is not None";
    "add_n_opers.shape[1:] != (d, d)";
-   "any((n_oper_id in n_oper_identifiers for n_oper_id in add_n_oper_id))"].
-Proof. reflexivity. Qed.
+   "any((n_oper_id in n_oper_identifiers for n_oper_id in add_n_oper_id))";
+   "len(set(c_oper_identifiers)) != len(c_oper_identifiers) or len(set(n_oper_identifiers)) != len(n_oper_identifiers)"]
+  /\ map snd raises_pulse_sequence__map_identifiers =
+     ["except KeyError"; "len(set(remapped_identifiers)) != len(remapped_identifiers)"].
+Proof. split; reflexivity. Qed.
 
 Example tie_C05_tensor_helpers :
   Src.h_util_tensor = Expected.h_util_tensor
